@@ -149,11 +149,15 @@ def gen(spec, lv):
 def gen_specs(tier, seed):
     specs = [("own", i) for i in range(len(OWN))]
     s2 = c02.gen_specs("sample-only", seed)
-    # (quick: every second metadata x statement combination and every 24th sampled sequence, rotating with the seed - the whole
-    # list is the thorough tier's; the quick tier has to stay well below a quarter of an hour on 16 cores)
+    # (quick: every metadata x statement combination and every 12th sampled sequence, rotating with the seed - the whole list is the
+    # thorough tier's; the quick tier has to stay well below a quarter of an hour on 16 cores)
     nb = len(c02.META) * len(c02.STMTS)
+    # (sequences that contain the two path-heavy statement variants more than once in total are left to C02, which loads them once;
+    # here every path is loaded three times and serialised three times - one such sequence alone ran for more than a quarter of an hour)
+    heavy = lambda sp: sum(sp[1].count(v) for v in ("int_divisors", "loop_index_func_kwlist")) > 1  # noqa
+    s2 = s2[:nb] + [sp for sp in s2[nb:] if not heavy(sp)]
     if tier == "quick":
-        specs += [("c02", s) for s in (s2[:nb][(seed % 2)::2] + s2[nb:][(seed % 24)::24])]
+        specs += [("c02", s) for s in (s2[:nb] + s2[nb:][(seed % 12)::12])]
     else:
         specs += [("c02", s) for s in s2]
     specs += [("c02", (mk, ())) for mk in c02.META]        # metadata only
@@ -166,7 +170,7 @@ def gen_specs(tier, seed):
     s6 = [s for s in c06.gen_specs("quick", seed) if s[5] != "use" and s[3] != "func"]
     specs += [("c06", s) for s in s6[::(6 if tier == "quick" else 1)]]
     sx = symx_specs()
-    specs += [("symx", s) for s in (sx[(seed % 20)::20] if tier == "quick" else sx)]
+    specs += [("symx", s) for s in (sx[(seed % 10)::10] if tier == "quick" else sx)]
     return specs
 
 
